@@ -3238,6 +3238,14 @@ func _case(n *node) {
 						return tnext
 					}
 					ival := v.Interface()
+					if vi, ok := ival.(valueInterface); ok && isInterfaceSrc(typ) {
+						// An interpreter value against an interpreter interface type: check the methods.
+						if vi.node != nil && vi.node.typ.methods().contains(typ.methods()) {
+							destValue(f).Set(elem)
+							return tnext
+						}
+						return fnext
+					}
 					if ival != nil && rtyp.String() == reflect.TypeOf(ival).String() {
 						destValue(f).Set(elem)
 						return tnext
